@@ -38,6 +38,12 @@ func (o SeqOpt) apply() {
 
 // xseq cfg strconv rawtokens fin encEscape goEmpty doc ;dom <0|1>
 func c04Exec(op string) string {
+	if strings.HasPrefix(op, "xtok ") {
+		// a MapSeq.Xml() output through the tokenizer model alone (c02.go: reference =
+		// encoding/xml on the same bytes, inside the subset tokModelSupports describes);
+		// theorems C04_tok_law_seq / C04_tok_roundtrip_bytes
+		return xtokExec(op)
+	}
 	c, _ := newCur(op)
 	o := c.seqOpt()
 	c.val()
@@ -152,6 +158,10 @@ func c04Exec(op string) string {
 var interTagBlank = regexp.MustCompile(`>[\n\t\r ]+<`)
 
 func c04Describe(op string) string {
+	if strings.HasPrefix(op, "xtok ") {
+		c, _ := newCur(op)
+		return fmt.Sprintf("tokenizer model vs encoding/xml on the MapSeq.Xml() output %q", c.str())
+	}
 	c, _ := newCur(op)
 	o := c.seqOpt()
 	c.val()
@@ -167,7 +177,88 @@ func c04Describe(op string) string {
 	return fmt.Sprintf("MapSeq round trip options=%+v encoderEscaping=%v goEmpty=%v doc=%q", o, esc, ge, doc)
 }
 
+// xtokseqJudge: xtokJudge (c02.go) on what MapSeq.Xml() wrote, with its own counters: xtokseq =
+// comparisons asked for, xtokseq:compared / :err / :skip, xtokseq:comment / :procinst = compared
+// outputs holding a comment / a processing instruction.
+func xtokseqJudge(op, impl, model string) Verdict {
+	v := xtokJudge(op, impl, model)
+	v.Tags = append(v.Tags, "xtokseq")
+	switch {
+	case v.Skipped:
+		v.Tags = append(v.Tags, "xtokseq:skip")
+	case impl == "tok err":
+		v.Tags = append(v.Tags, "xtokseq:err")
+	default:
+		v.Tags = append(v.Tags, "xtokseq:compared")
+		c, _ := newCur(op)
+		d := c.str()
+		if strings.Contains(d, "<!--") {
+			v.Tags = append(v.Tags, "xtokseq:comment")
+		}
+		if strings.Contains(d, "<?") {
+			v.Tags = append(v.Tags, "xtokseq:procinst")
+		}
+	}
+	if !v.CorrOK {
+		v.Sig = "xtokseq:tokens-differ"
+	}
+	return v
+}
+
+// c04XmlBytes: what MapSeq.Xml() writes for the document under the options of the case
+// (computed in-process when the cases are generated, as c19's xmlFileBytes does; the options are
+// restored afterwards)
+func c04XmlBytes(doc string, o SeqOpt, esc, goEmpty bool) (out string, ok bool) {
+	defer resetOptions()
+	defer func() {
+		if recover() != nil {
+			out, ok = "", false
+		}
+	}()
+	mxj.CoerceKeysToSnakeCase(o.Snake)
+	mxj.DisableTrimWhiteSpace(o.KeepSpace)
+	mxj.XMLEscapeCharsDecoder(o.EscDec)
+	mxj.CastValuesToInt(o.ToInt)
+	mxj.CastValuesToFloat(o.ToFloat)
+	mxj.CastValuesToBool(o.ToBool)
+	mxj.CastNanInf(o.NanInf)
+	mxj.XMLEscapeChars(esc)
+	if goEmpty {
+		mxj.XmlGoEmptyElemSyntax()
+	}
+	m, err := mxj.NewMapXmlSeq([]byte(doc), o.Cast)
+	if err != nil {
+		return "", false
+	}
+	x, xerr := m.Xml()
+	if xerr != nil {
+		return "", false
+	}
+	return string(x), true
+}
+
+// fixed byte strings for the tokenizer model: the rendering of C04ExtTok's sample tree and the
+// witnesses of its side conditions (comment with "--" / ending in '-', "?>" inside a PI text, PI
+// text with leading blanks, a target that is no name, a raw '<', adjacent text, a prefixed name)
+func c04Fixed() []string {
+	docs := []string{
+		`<r x="1&lt;2" y="&quot;">hi &amp; lo<a>1</a><!--a - note--><?go run? now?><b></b></r>`,
+		`<r x="1&lt;2" y="&quot;">hi &amp; lo<a>1</a><!--a - note--><?go run? now?><b/></r>`,
+		`<p:r xmlns:p="urn:p" p:k="a&amp;b">t<p:a></p:a><!--c--><b x="1"></b></p:r>`, `<a:b:c></a:b:c>`,
+		`<r><!--a--b--></r>`, `<r><!--a---></r>`, `<r><?p a?>b?></r>`, `<r><?p  x?></r>`, `<r><?1p x?></r>`,
+		`<r>1<2</r>`, `<r>xy</r>`, `<r><!--c--></r>`, `<p:a></p:a>`, "<r>x\ry</r>", `<r><?p ?></r>`, `<r><!----></r>`,
+	}
+	var ops []string
+	for _, d := range docs {
+		ops = append(ops, "xtok "+encStr(d))
+	}
+	return ops
+}
+
 func c04Judge(op, impl, model string) Verdict {
+	if strings.HasPrefix(op, "xtok ") {
+		return xtokseqJudge(op, impl, model)
+	}
 	v := Verdict{Tags: []string{"xseq"}}
 	if strings.HasPrefix(model, "skip-") {
 		v.Skipped, v.CorrOK = true, true
@@ -204,6 +295,10 @@ func c04Judge(op, impl, model string) Verdict {
 
 func c04Gen(r *Rng, n int) []string {
 	var ops []string
+	// what MapSeq.Xml() writes for the document of every case of this batch, as byte strings for
+	// the tokenizer model (appended after the n cases, so those are the same cases with or without
+	// this comparison)
+	var cat []string
 	for len(ops) < n {
 		g := c01Gen0
 		g.SeqShape = r.P(85)
@@ -226,6 +321,11 @@ func c04Gen(r *Rng, n int) []string {
 		// the round-trip clause is claimed for un-cast decoding of documents in the C04 shape
 		// (CDATA runs are text; a CDATA split inside an element still is one text run)
 		dom := g.SeqShape && !o.Cast && !o.Snake && !o.KeepSpace
+		if len(ops)%3 == 0 { // (one case in three: keeps the quick tier at its former duration)
+			if x, ok := c04XmlBytes(doc, o, esc, goEmpty); ok {
+				cat = append(cat, "xtok "+encStr(x))
+			}
+		}
 		if r.P(25) {
 			ops = append(ops, fmt.Sprintf("xseqi %s %s %s %s %d %d %s %s %s", o.enc(), strconvTable(leafTexts([]byte(doc))), toks, fin, b2i(esc), b2i(goEmpty),
 				encStr(r.Pick([]string{"", "", " ", "\t"})), encStr(r.Pick([]string{"  ", " ", "\t", "", "--"})), encStr(doc)))
@@ -233,17 +333,18 @@ func c04Gen(r *Rng, n int) []string {
 		}
 		ops = append(ops, fmt.Sprintf("xseq %s %s %s %s %d %d %s ;dom %d", o.enc(), strconvTable(leafTexts([]byte(doc))), toks, fin, b2i(esc), b2i(goEmpty), encStr(doc), b2i(dom)))
 	}
-	return ops
+	return append(ops, cat...)
 }
 
 func init() {
 	register(&Prop{
 		ID:        "C04",
-		Rule:      "documents with interleaved identically and differently named siblings, prefixed names and xmlns attributes, at most one comment / directive / processing instruction per element, text alone or ahead of the child elements (85%; the rest has arbitrary mixed content for the correspondence only), values with the XML special characters; decoded with NewMapXmlSeq and re-encoded with Xml, XmlIndent and BeautifyXml; non-trivial = a MapSeq was decoded; distinct = distinct op lines",
+		Rule:      "documents with interleaved identically and differently named siblings, prefixed names and xmlns attributes, at most one comment / directive / processing instruction per element, text alone or ahead of the child elements (85%; the rest has arbitrary mixed content for the correspondence only), values with the XML special characters; decoded with NewMapXmlSeq and re-encoded with Xml, XmlIndent and BeautifyXml; the bytes MapSeq.Xml() writes for the document of every case (options of the case; computed when the cases are generated), plus fixed byte strings (the sample of C04ExtTok and the witnesses of its side conditions), also go through the tokenizer model (driver op xtok) and are compared token by token with encoding/xml inside the model's subset (no directive, ASCII names; tags xtokseq, xtokseq:compared/err/skip/comment/procinst); non-trivial = a MapSeq was decoded / the real tokenizer accepted the bytes; distinct = distinct op lines",
 		Gen:       c04Gen,
 		Exec:      c04Exec,
 		Judge:     c04Judge,
 		Describe:  c04Describe,
+		Fixed:     c04Fixed,
 		QuickN:    3000*2,
 		ThoroughN: 150000,
 	})
